@@ -22,7 +22,9 @@ RULE = ("gain vectors of length 1..16 drawn from classes {log-uniform over 12 "
         "Es==1, decade of Pt); non-trivial = n >= 2 or Es != 1.  "
         "Gain classes include ties, integer dtypes and physical-unit magnitudes "
         "(1e-14..1e-9 and 1e9..1e14); a fifth of the budgets sit exactly on a "
-        "switch-off boundary; the permuted call is under the contract too. ")
+        "switch-off boundary; the permuted call is under the contract too.  "
+        "Class 'wide': one link of order 1 next to links 8-20 decades weaker at "
+        "a noise level that still makes them worth filling. ")
 ASSUMPTIONS = ["tolerances are backward-error bounds 64 n eps (level + inverse "
                "gain of the active channels)"]
 EPS = np.finfo(float).eps
@@ -137,6 +139,10 @@ def gen_gains(rng, n, gclass):
         return 10.0 ** rng.uniform(-14, -9, n)
     if gclass == "huge":
         return 10.0 ** rng.uniform(9, 14, n)
+    if gclass == "wide":            # one strong link next to links 10-20 decades weaker
+        g = 10.0 ** rng.uniform(-20, -8, n)
+        g[int(rng.integers(0, n))] = 10.0 ** rng.uniform(-1, 1)
+        return g
     if gclass == "svals":
         h = rng.standard_normal((n, n)) + 1j * rng.standard_normal((n, n))
         return np.linalg.svd(h, compute_uv=False) ** 2
@@ -144,7 +150,7 @@ def gen_gains(rng, n, gclass):
 
 
 GCLASSES = ["loguniform", "equal", "dominant", "near-equal", "sorted-desc", "svals",
-            "integers", "tiny", "huge"]
+            "integers", "tiny", "huge", "wide"]
 
 
 def case_direct(ctx, rng, idx):
@@ -156,6 +162,8 @@ def case_direct(ctx, rng, idx):
         N0 = 10.0 ** rng.uniform(-15, -9)        # thermal noise in watts
     elif gclass == "huge":
         N0 = 10.0 ** rng.uniform(6, 12)
+    elif gclass == "wide":
+        N0 = 10.0 ** rng.uniform(-22, -12)       # (high SNR: the weak links are worth filling)
     es_mode = idx % 3
     Es = 1.0 if es_mode == 0 else 10.0 ** rng.uniform(-2, 2)
     # force the number of active channels: choose k, put the level between
